@@ -296,23 +296,18 @@ theorem delete_encode (P : Params) (hP : P.Wf) (sch : Schema) (L : LRow) (hw : W
   unfold delete
   rw [encode_split P hP sch L, readHeader_encHeader P hP _ _ _ _ hw.creator hw.deleter hw.ver]
   simp only
-  cases hD : L.deleter with
-  | some x => simp [LRow.delete, hD, encode_split P hP sch L]
-  | none =>
-    have hdel : L.delete t = { L with deleter := some t } := by simp [LRow.delete, hD]
-    rw [hdel, encode_split P hP sch { L with deleter := some t }]
-    have hrest : encRest P sch { L with deleter := some t } = encRest P sch L := rfl
-    rw [hrest]
-    simp only [Option.isSome_none, Bool.false_eq_true, if_false, encHeader, xmaxField, List.append_assoc]
-    rw [List.take_left' (le64_length _), show 16 = 8 + 8 from rfl, ← List.drop_drop, List.drop_left' (le64_length _),
-      List.drop_left' (le64_length _)]
+  have hdel : L.delete t = { L with deleter := some t } := rfl
+  rw [hdel, encode_split P hP sch { L with deleter := some t }]
+  have hrest : encRest P sch { L with deleter := some t } = encRest P sch L := rfl
+  rw [hrest]
+  simp only [encHeader, List.append_assoc]
+  rw [List.take_left' (le64_length _), show 16 = 8 + 8 from rfl, ← List.drop_drop, List.drop_left' (le64_length _),
+    List.drop_left' (le64_length _)]
+  simp only [xmaxField]
 
 theorem delete_wf (P : Params) (sch : Schema) (L : LRow) (hw : WfRow P sch L) (t : Nat) (ht : t < 2 ^ 63) :
-    WfRow P sch (L.delete t) := by
-  unfold LRow.delete
-  split
-  · exact hw
-  · exact ⟨hw.keys, hw.cur, hw.creator, hw.ver, ht, hw.hist⟩
+    WfRow P sch (L.delete t) :=
+  ⟨hw.keys, hw.cur, hw.creator, hw.ver, ht, hw.hist⟩
 
 /-! ### `vacuumWith` refines `LRow.vacuum` -/
 
